@@ -37,10 +37,45 @@ OTHER_KEYS_WIDE = [10, -2, 3, 2.5, 4, 0.5, 100, -1.5, 3.0]
 # cases (specification keys are read in any case), white space around, longer words, non-list values
 PATHLIKE_EXTRA = [{"Path": ["a", 0]}, {"PATH.length": ["a"]}, {"b": 1, "Path": ["a"]}, {"Path": 3}, {" path": ["a"]}, {"path ": ["a"]},
                   {"pAthological": {"Path": [1]}}, [{"PATH": ["a"]}, 3], {"x": {"Path.First": ["a"]}}, {"path": "a"}, {"PATH": None},
-                  {"path\t": ["a"]}, {"Path.length.first": ["a", 0]}]
+                  {"path\t": ["a"]}, {"Path.length.first": ["a", 0]},
+                  # "path" followed by a word character, as an item / a value one level down and at the top
+                  [{"pathname": 1}, 3], {"b": {"paths": [1]}}, {"x": {"path_1": "a", "c": 2}}, {"pathname": "out.txt"},
+                  [{"c": 1, "PathName": ["a"]}], {"k": {"path2": {"path": ["a"]}}}]
+
+
+# COINCIDENCES: after a document has been generated, scalars and keys drawn for conditions / paths / arguments are,
+# now and then, taken from that document: one of its keys (at any depth), one of its scalar values, the length of one of
+# its containers - so that "the same string as a key in the document AND as an argument" is not left to two independent
+# draws from the pools
+_CTX = {"atoms": [], "keys": []}
+CTX_P = 0.1
+
+
+def _note_document(doc):
+    atoms, keys = [], []
+
+    def walk(x, depth):
+        if depth > 8:
+            return
+        if isinstance(x, dict):
+            atoms.append(len(x))
+            for k, v in x.items():
+                keys.append(k)
+                walk(v, depth + 1)
+        elif isinstance(x, list):
+            atoms.append(len(x))
+            for v in x:
+                walk(v, depth + 1)
+        else:
+            atoms.append(x)
+    walk(doc, 0)
+    _CTX["atoms"], _CTX["keys"] = atoms[:200], keys[:200]
 
 
 def scalar(rng):
+    if _CTX["atoms"] and rng.random() < CTX_P:
+        pool = _CTX["atoms"] + _CTX["keys"]
+        return rng.choice(pool)
     if rng.random() < WIDE_P:
         return rng.choice(rng.choice([INTS_WIDE, FLOATS_WIDE, STRS_WIDE, STRS_WIDE]))
     r = rng.random()
@@ -56,6 +91,8 @@ def scalar(rng):
 
 
 def key(rng, strish=0.7):
+    if _CTX["keys"] and rng.random() < CTX_P:
+        return rng.choice(_CTX["keys"] + [a for a in _CTX["atoms"] if isinstance(a, str)][:20])
     if rng.random() < WIDE_P:
         return rng.choice(STR_KEYS_WIDE if rng.random() < strish else OTHER_KEYS_WIDE)
     if rng.random() < strish:
@@ -114,8 +151,20 @@ def twins(rng):
 
 def document(rng, depth=3, maxlen=4, strish=0.7):
     """non-empty list or mapping"""
+    doc = _document(rng, depth, maxlen, strish)
+    _note_document(doc)
+    return doc
+
+
+def _document(rng, depth, maxlen, strish):
     if rng.random() < 0.05:
         depth, maxlen = depth + 2, max(maxlen, 6)      # now and then a deep / long document
+    if rng.random() < 0.03:
+        # a LONG container (10+ items: two-digit indices, positions past any small threshold), items mostly scalars
+        n = rng.randint(10, 13)
+        if rng.random() < 0.6:
+            return [value(rng, rng.choice([0, 0, 1]), 3) for _ in range(n)]
+        return {("k%d" % j if j else "a"): value(rng, rng.choice([0, 0, 1]), 3) for j in range(n)}
     if rng.random() < 0.45:
         return [value(rng, depth - 1, maxlen) for _ in range(rng.randint(1, maxlen))]
     ks = distinct_keys(rng, rng.randint(1, maxlen), strish)
@@ -270,6 +319,15 @@ def build_leaf(rec):
 
 def tree_recipe(rng, depth=3, kinds=None, well_typed=False, null_p=0.1, fns=None):
     """('leaf', rec) | ('null',) | (op, l, r)"""
+    if depth >= 2 and rng.random() < 0.04:
+        # a CHAIN of 4-6 operands of one operator (left- or right-nested), as `a & b & c & d` or a long spec list gives
+        op = rng.choice(["and", "or", "xor"])
+        leaves = [tree_recipe(rng, 0, kinds, well_typed, null_p, fns) for _ in range(rng.randint(4, 6))]
+        t = leaves[0]
+        left = rng.random() < 0.5
+        for x in leaves[1:]:
+            t = (op, t, x) if left else (op, x, t)
+        return t
     if depth <= 0 or rng.random() < 0.35:
         if rng.random() < null_p:
             return ("null",)
@@ -384,6 +442,17 @@ def part_recipe(rng, node=None, simple=0.5):
         keys = [k for k in node.keys() if k is not None]
     if isinstance(node, list):
         idxs = list(range(len(node)))
+    if isinstance(node, (list, dict)) and node and rng.random() < 0.05:
+        # a map-or-list part whose GENERIC condition is a single key (index) condition, on a node of the other kind and
+        # with an argument that would match one of its indices (keys): refused, hence no match
+        L = lambda datum, fn, *a: ("leaf", {"datum": datum, "pre": "none", "fn": fn, "actuals": list(a), "akw": {}})   # noqa: E731
+        if isinstance(node, list):
+            j = rng.randrange(len(node))
+            c = rng.choice([L("key", "equal_to", j), L("key", "in_", [j, 0]), L("key", "less_than", len(node)), L("key", "is_instance", int)])
+        else:
+            ks = [k for k in node if isinstance(k, int)] or [0]
+            c = rng.choice([L("index", "equal_to", rng.choice(ks)), L("index", "in_", ks[:2] + [0]), L("index", "less_than", 3)])
+        return {"rk": "mol", "key": None, "index": None, "value": None, "cond": c, "label": None}
     rk = rng.choice(["map", "list", "mol"])
     if node is not None and rng.random() < 0.75:
         rk = rng.choice(["map", "mol"]) if isinstance(node, dict) else rng.choice(["list", "mol"])
@@ -409,8 +478,14 @@ def part_recipe(rng, node=None, simple=0.5):
             ck += KEY_KINDS
         if rk == "list" and rng.random() < 0.4:
             ck += INDEX_KINDS
+        if rk == "mol" and rng.random() < 0.3:
+            # a key (index) condition in the generic slot of a map-or-list part: fine on a mapping (list), refused -
+            # hence no match - on a list (mapping)
+            ck = KEY_KINDS if rng.random() < 0.5 else INDEX_KINDS
+            if rng.random() < 0.6:
+                key = index = None
         cond = tree_recipe(rng, depth=rng.randint(0, 2), kinds=ck, null_p=0.15)
-    label = rng.choice([None, None, None, "lab", "x"])
+    label = rng.choice([None, None, None, None, None, "lab", "x", "", 0, False])       # falsy labels are labels
     return {"rk": rk, "key": key, "index": index, "value": value, "cond": cond, "label": label}
 
 
@@ -429,6 +504,8 @@ def path_recipe(rng, doc, maxlen=4, p_prim=0.6):
     parts = []
     node = doc
     n = rng.choice([0, 1, 1, 2, 2, 3, 3, 4][:2 + 2 * maxlen])
+    if maxlen >= 4 and rng.random() < 0.05:
+        n = rng.choice([5, 6])                      # now and then a long path
     for _ in range(n):
         if rng.random() < p_prim:
             p = prim_part(rng, node)
